@@ -34,6 +34,15 @@ func (r *Run) Materialise(w *World) *RealWorld {
 		full := filepath.Join(root, p)
 		os.MkdirAll(filepath.Dir(full), 0755)
 		if err := os.WriteFile(full, b, 0644); err != nil {
+			if _, by := w.Bystanders[p]; by {
+				// an unrelated file the simulated disk accepted at a place a
+				// real disk refuses (a directory of that name is needed):
+				// the world simply does not have it
+				delete(w.Bystanders, p)
+				w.Disk.Remove(p)
+				r.Count("materialise:bystander-dropped")
+				continue
+			}
 			panic(fmt.Sprintf("materialise: %v", err))
 		}
 	}
